@@ -85,7 +85,7 @@ func encNamed(xs []named) string {
 	return hx.EncList(t)
 }
 
-func (e *env) nameRound(r *hx.RNG, k *kindOps) {
+func (e *env) nameRound(r *hx.RNG, k *kindOps, force int) {
 	run, vp := e.run, e.vp
 	e.reset(k)
 	// both datacenters equal: n objects with distinct names
@@ -126,10 +126,17 @@ func (e *env) nameRound(r *hx.RNG, k *kindOps) {
 		cur[id] = x
 		e.writeNamed(k, false, []named{x})
 	}
-	if r.Chance(55) { // templates over two objects X, Y (their ID order is random)
+	if force >= 0 || r.Chance(55) { // templates over two objects X, Y (their ID order is random)
 		x, y := ids[0], ids[1]
+		if force >= 0 && x > y {
+			x, y = y, x // the witness: the object that takes the name over sorts first
+		}
 		nx, ny := cur[x].name, cur[y].name
-		switch r.Intn(4) {
+		tmpl := r.Intn(4)
+		if force >= 0 {
+			tmpl = force
+		}
+		switch tmpl {
 		case 0: // chain: Y gives its name up, X takes it
 			rename(y, "eps")
 			rename(x, ny)
@@ -152,6 +159,9 @@ func (e *env) nameRound(r *hx.RNG, k *kindOps) {
 		}
 	}
 	steps := r.Intn(4)
+	if force >= 0 {
+		steps = 0
+	}
 	for s := 0; s < steps; s++ {
 		id := hx.Pick(r, ids)
 		x, present := cur[id]
@@ -249,8 +259,10 @@ func (e *env) nameRound(r *hx.RNG, k *kindOps) {
 	}
 	run.Tag("names-kind:" + k.name)
 	run.Tag("names-shape-len:" + fmt.Sprint(len(shape)))
+	nbOp := ""
 	if nUps == 1 {
 		op := fmt.Sprintf("nbatch %s %s", encNamed(rows), encNamed(ups))
+		nbOp = op
 		out := "applied"
 		switch {
 		case rerr == nil:
@@ -277,7 +289,10 @@ func (e *env) nameRound(r *hx.RNG, k *kindOps) {
 		sort.Strings(t)
 		return strings.Join(t, " ")
 	}
-	replay := []string{fmt.Sprintf("names %s base=%v primary-mutation=%s", k.name, base, shape)}
+	replay := []string{fmt.Sprintf("# names %s base=%v primary-mutation=%s", k.name, base, shape)}
+	if nbOp != "" {
+		replay = append(replay, nbOp)
+	}
 	if rerr != nil {
 		// classify: is the name an upsert wants held by a row that the same batch updates?
 		inBatch := map[string]bool{}
@@ -287,23 +302,16 @@ func (e *env) nameRound(r *hx.RNG, k *kindOps) {
 		sig := "round-" + k.name + ":round-returned-error"
 		for _, u := range ups {
 			for _, y := range rows {
-				if strings.EqualFold(y.name, u.name) && y.id != u.id && inBatch[y.id] {
+				if strings.Contains(rerr.Error(), "already exists") && strings.EqualFold(y.name, u.name) && y.id != u.id && inBatch[y.id] {
 					sig = "round-" + k.name + ":upsert-batch-rejected:name-held-by-row-updated-in-same-batch"
 				}
 			}
 		}
 		desc := fmt.Sprintf("both datacenters held %v; after the primary's writes (%s) it holds [%s]; one real round fails with %q and leaves the secondary at [%s]",
 			base, shape, key(want), rerr.Error(), key(after))
-		if strings.HasSuffix(sig, "same-batch") {
-			// PROMOTE: confirmed consul defect reported to the lead (no known_findings.txt line
-			// yet); once listed, replace the next line by run.Violate(sig, desc, replay).
-			run.Tag("observed:" + sig)
-			if _, ok := run.Extra["observed_witness:"+sig]; !ok {
-				run.Extra["observed_witness:"+sig] = desc
-			}
-		} else {
-			run.Violate(sig, desc, replay)
-		}
+		// listed in known_findings.txt (confirmed consul defect: the upsert batch is checked
+		// element by element, in ID order, against the not-yet-updated rows of the name index)
+		run.Violate(sig, desc, replay)
 		return
 	}
 	run.Tag("names:round-ok")
@@ -314,6 +322,10 @@ func (e *env) nameRound(r *hx.RNG, k *kindOps) {
 }
 
 func runNames(run *hx.Run, e *env) {
+	// the two known findings, replayed deterministically on every run: a rename chain (policies)
+	// and a name swap (roles)
+	e.nameRound(run.RNG.Fork(1<<44), policyOps, 0)
+	e.nameRound(run.RNG.Fork(1<<44+1), roleOps, 1)
 	n := run.Scale(60, 400)
 	for i := 0; i < n; i++ {
 		r := run.RNG.Fork(1<<43 + uint64(i))
@@ -321,7 +333,7 @@ func runNames(run *hx.Run, e *env) {
 		if i%2 == 1 {
 			k = roleOps
 		}
-		e.nameRound(r, k)
+		e.nameRound(r, k, -1)
 	}
 	e.reset(policyOps)
 	e.reset(roleOps)
